@@ -292,6 +292,10 @@ func init() {
 		st.manualSpawn = args[0].(*Term).IsTrue()
 		return nil, ctlRet
 	})
+	regRepo("vhHandoff", func(ex *Exec, st *State, fr *Frame, args []Value) (Value, ctlT) {
+		st.handoff = args[0].(*Term).IsTrue()
+		return nil, ctlRet
+	})
 	regRepo("vhSpawned", func(ex *Exec, st *State, fr *Frame, args []Value) (Value, ctlT) {
 		return C(64, uint64(len(st.coros)-1)), ctlRet
 	})
